@@ -17,7 +17,9 @@ application exception, `try/except` whose handler may call `write_traceback()`, 
 explicit spelling of an action (`x = start_action(..)`; `with x.context():` / `x.run(..)` segments;
 `x.finish(..)`: see the section "The explicit spelling of an action" below) — started
 outside any action, after `add_destinations(*ds)`.  Every environment `env` such that (`EnvOK`)
-field serializers are functions that do not raise (`σ`), registered exception extractors — for any
+field serializers do not raise (`σ sid v k` = what serializer `sid` returns for `v` as the `k`-th
+serializer call overall: the output may depend on the call number, as the harness's tagging serializers'
+does), registered exception extractors — for any
 classes, returning any fields, possibly different ones on every call — do not raise (one that raises
 adds an `eliot:traceback` message of its own: C07), and the registered destinations never raise (a
 raising destination adds `eliot:destination_failure` messages to the current action: C08).  The end
@@ -44,13 +46,13 @@ open Sys Sys.Emit
 
 /-- **execB_emits** (emission lemma, inside an action).  Let action `c` be current, unfinished, with
 uuid `i.uuid`, level `i.level`, `n` positions handed out and success fields `s`; let `r` be the
-denotation of the structured block `b` from counters `d`.  Running `b` (under handled exception
+denotation of the structured block `b` from counters `d` (clock reads, uuids, extractor calls, serializer calls).  Running `b` (under handled exception
 `cur`) stages exactly `F.dicts … r.f i.level (n+1)` — the dicts of the performed forest at levels
 `i.level ++ [n+1]`, `i.level ++ [n+2]`, … in depth-first emission order, a task started inside being
 emitted in place as a whole separate tree —, leaves `c` unfinished with `n + r.f.len` positions
 handed out and success fields `r.s`, leaves every other existing action untouched, restores the
 context, consumes exactly the clock reads / uuids the denotation says, and ends with outcome `r.out`. -/
-theorem execB_emits {env : Env} {σ : Nat → FV → FV} {ds : List Nat} (H : EnvOK env σ ds) (cur : Option Exc) (inH : Bool)
+theorem execB_emits {env : Env} {σ : Nat → FV → Nat → FV} {ds : List Nat} (H : EnvOK env σ ds) (cur : Option Exc) (inH : Bool)
     (hcur : inH = true → cur.isSome = true) (b : Block) (hs : b.structured inH true = true)
     (w : World) (c : Nat) (i : AI) (n : Nat) (s : Fields) (d : DS) (pre : Pre ds w c i n s d)
     (hwf : (denB env cur true b d s).wf = true) :
@@ -70,15 +72,15 @@ top-level trees — one tree per top-level `with` block, one one-message task pe
 outside any action (`T.top`: start dict, content at positions 2, 3, …, end dict; a task started
 inside emitted in place) —; the program's outcome is the denotation's; no action is current at the
 end; and every registered destination is offered, and accepts, exactly the stage. -/
-theorem emitted_is_forest {env : Env} {σ : Nat → FV → FV} {ds : List Nat} (H : EnvOK env σ ds) (hn : ds.Nodup) (p : Block)
-    (hs : p.structured false false = true) (hwf : (denB env none false p ⟨0, 0, 0⟩ []).wf = true) :
+theorem emitted_is_forest {env : Env} {σ : Nat → FV → Nat → FV} {ds : List Nat} (H : EnvOK env σ ds) (hn : ds.Nodup) (p : Block)
+    (hs : p.structured false false = true) (hwf : (denB env none false p ⟨0, 0, 0, 0⟩ []).wf = true) :
     let run := execB env none {} (.cons (.addDests ds) p)
-    let r := denB env none false p ⟨0, 0, 0⟩ []
+    let r := denB env none false p ⟨0, 0, 0, 0⟩ []
     run.1.stage = (F.tops r.f).flatMap (fun e => T.top env σ e.1 e.2) ∧ r.f.len = 0 ∧
     run.2 = r.out ∧ r.out ≠ .stuck ∧ run.1.ctx = none ∧
     ∀ d ∈ ds, offeredTo run.1 d = run.1.stage ∧ acceptedBy run.1 d = run.1.stage := by
   intro run r
-  have pre : PreT ds ({ anyAdded := true, dests := ds, dupAdd := hasDup ds } : World) ⟨0, 0, 0⟩ := ⟨⟨fun _ h => h, rfl⟩, rfl, rfl, rfl, rfl⟩
+  have pre : PreT ds ({ anyAdded := true, dests := ds, dupAdd := hasDup ds } : World) ⟨0, 0, 0, 0⟩ := ⟨⟨fun _ h => h, rfl⟩, rfl, rfl, rfl, rfl, rfl⟩
   obtain ⟨post, ho, hns⟩ := execB_top H none false (by simp) p hs _ [] _ pre hwf
   have hrun : run = execB env none ({ anyAdded := true, dests := ds, dupAdd := hasDup ds } : World) p := init_eq env ds p
   refine ⟨?_, post.flat, by rw [hrun]; exact ho, hns, by rw [hrun]; exact post.ctx, ?_⟩
@@ -156,25 +158,25 @@ messages of the specification trees of what the program performed (`specOf`: the
 pairwise distinct uuids), and feeding them to `parse_stream` in **any order** yields exactly one
 complete task per tree whose root is that whole tree: same shape, child order, action types,
 statuses, payload ids. -/
-theorem roundtrip {env : Env} {σ : Nat → FV → FV} {ds : List Nat} (H : EnvOK env σ ds) (p : Block)
-    (hs : p.structured false false = true) (hwf : (denB env none false p ⟨0, 0, 0⟩ []).wf = true)
-    (hR : F.clean (denB env none false p ⟨0, 0, 0⟩ []).f = true) :
+theorem roundtrip {env : Env} {σ : Nat → FV → Nat → FV} {ds : List Nat} (H : EnvOK env σ ds) (p : Block)
+    (hs : p.structured false false = true) (hwf : (denB env none false p ⟨0, 0, 0, 0⟩ []).wf = true)
+    (hR : F.clean (denB env none false p ⟨0, 0, 0, 0⟩ []).f = true) :
     let stage := (execB env none {} (.cons (.addDests ds) p)).1.stage
-    let trees := specOf (denB env none false p ⟨0, 0, 0⟩ []).f
+    let trees := specOf (denB env none false p ⟨0, 0, 0, 0⟩ []).f
     ∃ l : List PM.PMsg, stage.map toPMsg = l.map some ∧ l.map (·.body) = List.range' 0 stage.length ∧
       trees.WF ∧ l.Perm trees.msgs ∧
       ∀ ms : List PM.PMsg, ms.Perm l → ∃ out, PM.parseStream ms = .ok out ∧ Reconstructs trees out := by
   intro stage trees
-  have pre : PreT ds ({ anyAdded := true, dests := ds, dupAdd := hasDup ds } : World) ⟨0, 0, 0⟩ := ⟨⟨fun _ h => h, rfl⟩, rfl, rfl, rfl, rfl⟩
+  have pre : PreT ds ({ anyAdded := true, dests := ds, dupAdd := hasDup ds } : World) ⟨0, 0, 0, 0⟩ := ⟨⟨fun _ h => h, rfl⟩, rfl, rfl, rfl, rfl, rfl⟩
   obtain ⟨post, _, _⟩ := execB_top H none false (by simp) p hs _ [] _ pre hwf
-  have hstage : stage = F.dicts env σ 0 (denB env none false p ⟨0, 0, 0⟩ []).f [] 0 := by
+  have hstage : stage = F.dicts env σ 0 (denB env none false p ⟨0, 0, 0, 0⟩ []).f [] 0 := by
     simp only [stage, init_eq, post.stage]; rfl
-  have rg := denB_range env none false p ⟨0, 0, 0⟩ []
+  have rg := denB_range env none false p ⟨0, 0, 0, 0⟩ []
   obtain ⟨l, h1, h2, h3⟩ := (F.proj env σ 0 _ [] 0 hR).ex
   have hlen : stage.length = l.length := by
     have := congrArg List.length h1
     simpa [hstage] using this
-  have hspec : sepMsgs (F.seps (denB env none false p ⟨0, 0, 0⟩ []).f) = PM.Spec.msgs trees := by
+  have hspec : sepMsgs (F.seps (denB env none false p ⟨0, 0, 0, 0⟩ []).f) = PM.Spec.msgs trees := by
     simp only [sepMsgs, PM.Spec.msgs, trees, specOf, List.flatMap_map]
   have hbody : l.map (·.body) = List.range' 0 stage.length := by
     rw [h2, rg.ticks, hlen]
@@ -198,7 +200,9 @@ theorem roundtrip {env : Env} {σ : Nat → FV → FV} {ds : List Nat} (H : EnvO
 `leafDict` / `startDict` / `endDict`, i.e. the field dict with the structural keys written over it
 and the declared serializers applied; this theorem reads them):
 a message holds its `message_type` and, under every other non-structural key, exactly the value
-logged — a typed field its serializer's output (`serOpt σ sers fields`); a start message the fields
+logged — a typed field its serializer's output (`serOpt σ j sers fields`: the declared fields go through
+their serializers in declaration order, as serializer calls number `j`, `j+1`, …, and the output may
+depend on the call number); a start message the fields
 given to `start_action`; a successful end message the success fields added; a failed end message the
 exception's class name and text — eliot's own `exception` / `reason` / `action_status` win over
 extracted fields of the same name —, under every other key exactly the fields `xf` the exception
@@ -206,35 +210,35 @@ extractor returned (in the denotation: `extOf`, the extractor of the nearest cla
 nothing if none is registered), and no success field; the `eliot:traceback` message of
 `write_traceback()` its own `reason` / `traceback` / `exception` over the extracted fields.
 Precondition: no typed field is declared under a structural key. -/
-theorem field_values (env : Env) (σ : Nat → FV → FV) (u : Nat) (L : Level) (tick : Nat) :
+theorem field_values (env : Env) (σ : Nat → FV → Nat → FV) (u : Nat) (L : Level) (tick j : Nat) :
     (∀ ms : MSpec, sersAvoid ms.sers ["timestamp", "task_uuid", "task_level", "message_type"] →
-      (leafDict σ u L tick ms).get? "message_type" = some (.str ms.mtype) ∧
+      (leafDict σ u L tick j ms).get? "message_type" = some (.str ms.mtype) ∧
       ∀ k, k ∉ ["timestamp", "task_uuid", "task_level", "message_type"] →
-        (leafDict σ u L tick ms).get? k = (serOpt σ ms.sers ms.fields).get? k) ∧
+        (leafDict σ u L tick j ms).get? k = (serOpt σ j ms.sers ms.fields).get? k) ∧
     (∀ sp : Spec, sersAvoid (sp.sers.map (·.1)) actionKeys → ∀ k, k ∉ actionKeys →
-      (startDict σ u L tick sp).get? k = (serOpt σ (sp.sers.map (·.1)) sp.fields).get? k) ∧
+      (startDict σ u L tick j sp).get? k = (serOpt σ j (sp.sers.map (·.1)) sp.fields).get? k) ∧
     (∀ atype sers succ xf, sersAvoid (sers.map (·.2)) actionKeys → ∀ k, k ∉ actionKeys →
-      (endDict env σ u L tick atype sers succ xf .ok).get? k = (serOpt σ (sers.map (·.2)) succ).get? k) ∧
+      (endDict env σ u L tick j atype sers succ xf .ok).get? k = (serOpt σ j (sers.map (·.2)) succ).get? k) ∧
     (∀ atype sers succ xf e,
-      (endDict env σ u L tick atype sers succ xf (.raised e)).get? "exception" = some (.str (e.qual env)) ∧
-      (endDict env σ u L tick atype sers succ xf (.raised e)).get? "reason" = some (.str (e.safeStr env)) ∧
-      (endDict env σ u L tick atype sers succ xf (.raised e)).get? "action_status" = some (.str "failed") ∧
+      (endDict env σ u L tick j atype sers succ xf (.raised e)).get? "exception" = some (.str (e.qual env)) ∧
+      (endDict env σ u L tick j atype sers succ xf (.raised e)).get? "reason" = some (.str (e.safeStr env)) ∧
+      (endDict env σ u L tick j atype sers succ xf (.raised e)).get? "action_status" = some (.str "failed") ∧
       ∀ k, k ∉ actionKeys → k ≠ "exception" → k ≠ "reason" →
-        (endDict env σ u L tick atype sers succ xf (.raised e)).get? k = xf.get? k) ∧
+        (endDict env σ u L tick j atype sers succ xf (.raised e)).get? k = xf.get? k) ∧
     (∀ e xf,
       (tbSpec env e xf).mtype = "eliot:traceback" ∧ (tbSpec env e xf).sers = none ∧
       (tbSpec env e xf).fields.get? "reason" = some (.str (e.safeStr env)) ∧
       (tbSpec env e xf).fields.get? "traceback" = some (.tbtext e) ∧
       (tbSpec env e xf).fields.get? "exception" = some (.str (e.qual env)) ∧
       ∀ k, k ≠ "reason" → k ≠ "traceback" → k ≠ "exception" → (tbSpec env e xf).fields.get? k = xf.get? k) :=
-  ⟨fun ms hs => leafDict_fields σ u L tick ms hs, fun sp hs k hk => startDict_fields σ u L tick sp hs k hk,
-   fun atype sers succ xf hs k hk => endDict_fields_ok env σ u L tick atype sers succ xf hs k hk,
+  ⟨fun ms hs => leafDict_fields σ u L tick j ms hs, fun sp hs k hk => startDict_fields σ u L tick j sp hs k hk,
+   fun atype sers succ xf hs k hk => endDict_fields_ok env σ u L tick j atype sers succ xf hs k hk,
    fun atype sers succ xf e =>
-     ⟨(endDict_fields_failed env σ u L tick atype sers succ xf e).1, (endDict_fields_failed env σ u L tick atype sers succ xf e).2.1,
+     ⟨(endDict_fields_failed env σ u L tick j atype sers succ xf e).1, (endDict_fields_failed env σ u L tick j atype sers succ xf e).2.1,
       by simp only [endDict]
          rw [Sys.C04.Fields.get?_set_ne _ _ _ _ (by decide), Sys.C04.Fields.get?_set_ne _ _ _ _ (by decide), Sys.C04.Fields.get?_set_ne _ _ _ _ (by decide),
            Sys.C04.Fields.get?_set_ne _ _ _ _ (by decide), Sys.C04.Fields.get?_set_self],
-      (endDict_fields_failed env σ u L tick atype sers succ xf e).2.2⟩,
+      (endDict_fields_failed env σ u L tick j atype sers succ xf e).2.2⟩,
    fun e xf => tbSpec_fields env e xf⟩
 
 /-- **extracted_fields** (which extractor).  The fields a failed action's end message and a
@@ -257,9 +261,9 @@ theorem extracted_fields (env : Env) (e : Exc) (k : Nat) :
   simp only [extOf, this _ h]
 
 -- a typed message {"k": "v"} with serializer 5 on "k", and an untyped field
-example : (leafDict (fun s v => FV.serOut s 0 v) 3 [2] 9 { mtype := "m", fields := [("k", .str "v"), ("n", .nat 4)], sers := some [("k", 5)] }).get? "k"
-      = some (.serOut 5 0 (.str "v")) ∧
-    (leafDict (fun s v => FV.serOut s 0 v) 3 [2] 9 { mtype := "m", fields := [("k", .str "v"), ("n", .nat 4)], sers := some [("k", 5)] }).get? "n"
+example : (leafDict (fun s v k => FV.serOut s k v) 3 [2] 9 4 { mtype := "m", fields := [("k", .str "v"), ("n", .nat 4)], sers := some [("k", 5)] }).get? "k"
+      = some (.serOut 5 4 (.str "v")) ∧
+    (leafDict (fun s v k => FV.serOut s k v) 3 [2] 9 4 { mtype := "m", fields := [("k", .str "v"), ("n", .nat 4)], sers := some [("k", 5)] }).get? "n"
       = some (.nat 4) := by decide +kernel
 
 /-! ## Through the file: one JSON line per staged dict, read back, decoded, parsed -/
@@ -296,6 +300,8 @@ structure JsonView.Faithful (v : JsonView) (ext : Bool) (m : Msg) : Prop where
   lower : lower ext (v.py m) = .ok (v.jv m)
   native : JsonNative (v.jv m)
   keys : NodupKeysDeep (v.jv m)
+  /-- orjson refuses values nested in more than 254 containers (C10 `deep_nesting_refused`) -/
+  depth : (v.jv m).depth ≤ maxDepth
   back : v.back (v.jv m) = some m
 
 open EJ in
@@ -314,7 +320,7 @@ theorem JsonView.codec_ok (v : JsonView) (ext : Bool) (m : Msg) (h : v.Faithful 
     (v.codec ext).OK m ∧
     (FileDest.mk .text ext).line (v.py m) = some ((v.codec ext).enc m ++ [10]) ∧
     (FileDest.mk .binary ext).line (v.py m) = some (utf8enc ((v.codec ext).enc m) ++ [10]) := by
-  obtain ⟨t, ht⟩ := encode_native_ok (v.jv m) h.native
+  obtain ⟨t, ht⟩ := encode_native_ok (v.jv m) h.native h.depth
   have hcp : dumpsCP ext (v.py m) = .ok t := by simp only [dumpsCP, h.lower, ht]
   have henc : (v.codec ext).enc m = t := by simp only [JsonView.codec, hcp]
   have hl := EJ.C10.decode_encode (v.jv m) t h.native h.keys ht
@@ -341,9 +347,9 @@ receives exactly one line `enc m ++ "\n"` per staged dict, in order; the binary-
 the UTF-8 encoding of the same content; splitting on newlines, `json.loads`-ing and reading back
 every line returns exactly the staged dicts; and parsing their projections — in file order or any
 other order — yields exactly one complete task per performed tree with that whole tree as root. -/
-theorem roundtrip_file {env : Env} {σ : Nat → FV → FV} {ds : List Nat} (H : EnvOK env σ ds) (p : Block)
-    (hs : p.structured false false = true) (hwf : (denB env none false p ⟨0, 0, 0⟩ []).wf = true)
-    (hR : F.clean (denB env none false p ⟨0, 0, 0⟩ []).f = true) (v : JsonView) (ext : Bool)
+theorem roundtrip_file {env : Env} {σ : Nat → FV → Nat → FV} {ds : List Nat} (H : EnvOK env σ ds) (p : Block)
+    (hs : p.structured false false = true) (hwf : (denB env none false p ⟨0, 0, 0, 0⟩ []).wf = true)
+    (hR : F.clean (denB env none false p ⟨0, 0, 0, 0⟩ []).f = true) (v : JsonView) (ext : Bool)
     (hv : ∀ m ∈ (execB env none {} (.cons (.addDests ds) p)).1.stage, v.Faithful ext m) :
     let stage := (execB env none {} (.cons (.addDests ds) p)).1.stage
     let text := content (fileCalls .text ext (stage.map v.py))
@@ -351,7 +357,7 @@ theorem roundtrip_file {env : Env} {σ : Nat → FV → FV} {ds : List Nat} (H :
     utf8dec (content (fileCalls .binary ext (stage.map v.py))) = some text ∧
     (readLines text).filterMap (v.codec ext).dec = stage ∧
     ∀ ms : List PM.PMsg, ms.Perm (((readLines text).filterMap (v.codec ext).dec).filterMap toPMsg) →
-      ∃ out, PM.parseStream ms = .ok out ∧ Reconstructs (specOf (denB env none false p ⟨0, 0, 0⟩ []).f) out := by
+      ∃ out, PM.parseStream ms = .ok out ∧ Reconstructs (specOf (denB env none false p ⟨0, 0, 0, 0⟩ []).f) out := by
   intro stage text
   have hok : ∀ m ∈ stage, (v.codec ext).OK m := fun m hm => (v.codec_ok ext m (hv m hm)).1
   have htext : text = (stage.map fun m => (v.codec ext).enc m ++ [10]).flatten := by
@@ -380,9 +386,10 @@ def exEnv : Env where
   strOf := fun _ => some "boom"
   keyErrorClass := 1
   extractor := fun _ => none
-  serialize := fun s v _ => Except.ok (FV.serOut s 0 v)
+  serialize := fun s v k => Except.ok (FV.serOut s k v)
   destFails := fun d k => if d = 0 && k = 1 then some (Exc.user 9) else none
-def exσ : Nat → FV → FV := fun s v => FV.serOut s 0 v
+/-- the serializers of the examples tag their output with the call number, as the harness's do -/
+def exσ : Nat → FV → Nat → FV := fun s v k => FV.serOut s k v
 
 theorem exOK : EnvOK exEnv exσ [1, 2] := by
   refine EnvOK.ofNoExtractor (fun _ _ _ => rfl) (fun _ => rfl) ?_
@@ -406,18 +413,18 @@ def exProg : Block :=
   .nil))
 
 /-- the hypotheses hold for it -/
-theorem exHyps : exProg.structured false false = true ∧ (denB exEnv none false exProg ⟨0, 0, 0⟩ []).wf = true ∧
-    F.clean (denB exEnv none false exProg ⟨0, 0, 0⟩ []).f = true := by decide +kernel
+theorem exHyps : exProg.structured false false = true ∧ (denB exEnv none false exProg ⟨0, 0, 0, 0⟩ []).wf = true ∧
+    F.clean (denB exEnv none false exProg ⟨0, 0, 0, 0⟩ []).f = true := by decide +kernel
 
 -- 14 messages in 4 trees: uuid 0 (action "a": 8 messages), 1 (the task, 3), 2 (the context-less message), 3 (action "c": 2)
 example : (execB exEnv none {} (.cons (.addDests [1, 2]) exProg)).1.stage.length = 14 ∧
     (execB exEnv none {} (.cons (.addDests [1, 2]) exProg)).2 = .ok ∧
-    (specOf (denB exEnv none false exProg ⟨0, 0, 0⟩ []).f).map (fun e => (e.1, (PM.tmsgs e.1 e.2).length)) =
+    (specOf (denB exEnv none false exProg ⟨0, 0, 0, 0⟩ []).f).map (fun e => (e.1, (PM.tmsgs e.1 e.2).length)) =
       [("u1", 3), ("u0", 8), ("u2", 1), ("u3", 2)] := by decide +kernel
 
 -- the model's stage is what `emitted_is_forest` says, computed
 example : (execB exEnv none {} (.cons (.addDests [1, 2]) exProg)).1.stage =
-    (F.tops (denB exEnv none false exProg ⟨0, 0, 0⟩ []).f).flatMap (fun e => T.top exEnv exσ e.1 e.2) :=
+    (F.tops (denB exEnv none false exProg ⟨0, 0, 0, 0⟩ []).f).flatMap (fun e => T.top exEnv exσ e.1 e.2) :=
   (emitted_is_forest exOK (by decide) exProg exHyps.1 exHyps.2.1).1
 
 -- levels, types and statuses of the staged dicts, in emission order
@@ -433,7 +440,7 @@ example : ((execB exEnv none {} (.cons (.addDests [1, 2]) exProg)).1.stage.filte
 -- field values: the typed start field and the typed success field went through their serializers,
 -- the failed end carries the exception's class and text and no success field
 example : ((execB exEnv none {} (.cons (.addDests [1, 2]) exProg)).1.stage[0]?.bind (·.get? "x")) = some (.serOut 7 0 (.nat 1)) ∧
-    ((execB exEnv none {} (.cons (.addDests [1, 2]) exProg)).1.stage[10]?.bind (·.get? "y")) = some (.serOut 8 0 (.nat 2)) ∧
+    ((execB exEnv none {} (.cons (.addDests [1, 2]) exProg)).1.stage[10]?.bind (·.get? "y")) = some (.serOut 8 2 (.nat 2)) ∧
     ((execB exEnv none {} (.cons (.addDests [1, 2]) exProg)).1.stage[7]?.bind (·.get? "reason")) = some (.str "boom") ∧
     ((execB exEnv none {} (.cons (.addDests [1, 2]) exProg)).1.stage[7]?.bind (·.get? "y")) = none := by decide +kernel
 
@@ -444,7 +451,7 @@ example : (PM.parseStream ((execB exEnv none {} (.cons (.addDests [1, 2]) exProg
 
 -- … and (by the theorem) each with the whole performed tree as root
 example : ∃ out, PM.parseStream ((execB exEnv none {} (.cons (.addDests [1, 2]) exProg)).1.stage.filterMap toPMsg).reverse = .ok out ∧
-    Reconstructs (specOf (denB exEnv none false exProg ⟨0, 0, 0⟩ []).f) out := by
+    Reconstructs (specOf (denB exEnv none false exProg ⟨0, 0, 0, 0⟩ []).f) out := by
   obtain ⟨l, h1, _, _, _, hp⟩ := roundtrip (ds := [1, 2]) exOK exProg exHyps.1 exHyps.2.1 exHyps.2.2
   have : (execB exEnv none {} (.cons (.addDests [1, 2]) exProg)).1.stage.filterMap toPMsg = l := by
     have := congrArg (List.filterMap id) h1
@@ -466,7 +473,7 @@ def exEnvX : Env where
     if c = 0 then some (fun _ k => .ok [("code", .nat 7), ("call", .nat k), ("reason", .str "mine")])
     else if c = 2 then some (fun _ _ => .ok [("leaf", .nat 1)])
     else none
-  serialize := fun s v _ => Except.ok (FV.serOut s 0 v)
+  serialize := fun s v k => Except.ok (FV.serOut s k v)
   destFails := fun _ _ => none
 
 theorem exOKX : EnvOK exEnvX exσ [1, 2] := by
@@ -506,8 +513,8 @@ def exProgX : Block :=
   (.cons (.tryCatch (.cons (.withAction false { atype := "d" } (.cons (.raise 3) .nil)) .nil) .nil)
   .nil))
 
-theorem exHypsX : exProgX.structured false false = true ∧ (denB exEnvX none false exProgX ⟨0, 0, 0⟩ []).wf = true ∧
-    F.clean (denB exEnvX none false exProgX ⟨0, 0, 0⟩ []).f = true := by decide +kernel
+theorem exHypsX : exProgX.structured false false = true ∧ (denB exEnvX none false exProgX ⟨0, 0, 0, 0⟩ []).wf = true ∧
+    F.clean (denB exEnvX none false exProgX ⟨0, 0, 0, 0⟩ []).f = true := by decide +kernel
 
 -- 10 messages; the failed end of "a" (index 2) carries the extractor's `code` and call number 0, but
 -- eliot's own `reason`; the traceback (index 3) carries them too (second extractor call) under its own
@@ -526,11 +533,11 @@ example : (execB exEnvX none {} (.cons (.addDests [1, 2]) exProgX)).1.stage.leng
 
 -- … and that stage is the denotation's (by the theorem), and parses back to the four performed trees
 example : (execB exEnvX none {} (.cons (.addDests [1, 2]) exProgX)).1.stage =
-    (F.tops (denB exEnvX none false exProgX ⟨0, 0, 0⟩ []).f).flatMap (fun e => T.top exEnvX exσ e.1 e.2) :=
+    (F.tops (denB exEnvX none false exProgX ⟨0, 0, 0, 0⟩ []).f).flatMap (fun e => T.top exEnvX exσ e.1 e.2) :=
   (emitted_is_forest exOKX (by decide) exProgX exHypsX.1 exHypsX.2.1).1
 
 example : ∃ out, PM.parseStream ((execB exEnvX none {} (.cons (.addDests [1, 2]) exProgX)).1.stage.filterMap toPMsg).reverse = .ok out ∧
-    Reconstructs (specOf (denB exEnvX none false exProgX ⟨0, 0, 0⟩ []).f) out := by
+    Reconstructs (specOf (denB exEnvX none false exProgX ⟨0, 0, 0, 0⟩ []).f) out := by
   obtain ⟨l, h1, _, _, _, hp⟩ := roundtrip (ds := [1, 2]) exOKX exProgX exHypsX.1 exHypsX.2.1 exHypsX.2.2
   have : (execB exEnvX none {} (.cons (.addDests [1, 2]) exProgX)).1.stage.filterMap toPMsg = l := by
     have := congrArg (List.filterMap id) h1
@@ -549,7 +556,8 @@ raises would leave the action unfinished (the exception leaves the block before 
 excluded through the decidable `wf` (`denX`: `wf = false`), the parser's treatment of unfinished
 actions is C09's.  What such a program performed is the *same node* as the `with` block's: -/
 
-/-- **explicit_node.**  The node closed by `x.finish(exc)` after segments that performed `rb.f`,
+/-- **explicit_node** (definitional: it unfolds the denotation's own helpers `closeR` / `withR`; what
+connects them to the real code is `execX_emits` / `execB_emits`).  The node closed by `x.finish(exc)` after segments that performed `rb.f`,
 collected success fields `rb.s` and left the counters at `rb.ds` is exactly the node of
 `with start_action(sp): …` whose body did the same and ended with `finRes exc` (`ok` for `finish()`,
 `raised e` for `finish(e)`): same start and end ticks, fields, extracted fields, children; the counters
@@ -566,13 +574,15 @@ ends normally. -/
 theorem explicit_same_as_with (env : Env) (cur : Option Exc) (inAct : Bool) (x : Nat) (task : Bool) (sp : Spec)
     (body rest : Block) (d : DS) (s : Fields) (viaRun : Bool)
     (hok : (denB env cur true body
-      { tick := d.tick + 1, nu := if (task || !inAct) = true then d.nu + 1 else d.nu, ex := d.ex } []).out = .ok) :
+      { tick := d.tick + 1, nu := if (task || !inAct) = true then d.nu + 1 else d.nu, ex := d.ex,
+        sc := d.sc + nser (sp.sers.map (·.1)) } []).out = .ok) :
     denB env cur inAct
         (.cons (.startAs x task sp) (.cons (if viaRun then .runIn x body else .inContext x body) (.cons (.finish x none) rest))) d s =
       denB env cur inAct (.cons (.withAction task sp body) rest) d s := by
   rw [denB_start, denB_cons _ _ _ _ _ _ _ (by intro _ _ _ h; cases h), denS_with]
   have hw : (withR env (task || !inAct) sp d s (denB env cur true body
-      { tick := d.tick + 1, nu := if (task || !inAct) = true then d.nu + 1 else d.nu, ex := d.ex } [])).out = .ok := hok
+      { tick := d.tick + 1, nu := if (task || !inAct) = true then d.nu + 1 else d.nu, ex := d.ex,
+        sc := d.sc + nser (sp.sers.map (·.1)) } [])).out = .ok := hok
   cases viaRun
   · simp only [Bool.false_eq_true, if_false, denX_ctx, segR, hok, denX_finish, hw]
     simp only [closeR, withR, finRes, extOut, hok, F.append, Bool.and_assoc]
@@ -591,7 +601,8 @@ theorem handle_same_as_with (env : Env) (cur : Option Exc) (inAct : Bool) (x : N
   have hwo : ∀ rb : R, (withR env (task || !inAct) sp d s rb).out = rb.out := fun _ => rfl
   simp only [hco, hwo]
   cases ho : (denB env cur true body
-      { tick := d.tick + 1, nu := if (task || !inAct) = true then d.nu + 1 else d.nu, ex := d.ex } []).out <;>
+      { tick := d.tick + 1, nu := if (task || !inAct) = true then d.nu + 1 else d.nu, ex := d.ex,
+        sc := d.sc + nser (sp.sers.map (·.1)) } []).out <;>
     simp only [closeW, closeR, withR, ho, F.append, Bool.and_assoc, Bool.and_true]
 
 /-- the explicit spelling, at top level and nested, succeeding and failing: an action `a` spelled
@@ -614,8 +625,8 @@ def exProgE : Block :=
   (.cons (.runIn 0 (.cons (.log { mtype := "t2" }) .nil))
   (.cons (.finish 0 none) .nil))))))
 
-theorem exHypsE : exProgE.structured false false = true ∧ (denB exEnvX none false exProgE ⟨0, 0, 0⟩ []).wf = true ∧
-    F.clean (denB exEnvX none false exProgE ⟨0, 0, 0⟩ []).f = true := by decide +kernel
+theorem exHypsE : exProgE.structured false false = true ∧ (denB exEnvX none false exProgE ⟨0, 0, 0, 0⟩ []).wf = true ∧
+    F.clean (denB exEnvX none false exProgE ⟨0, 0, 0, 0⟩ []).f = true := by decide +kernel
 
 /-- the same program spelled with `with` blocks (`b` fails by raising, caught outside) -/
 def exProgEW : Block :=
@@ -635,15 +646,15 @@ example : (execB exEnvX none {} (.cons (.addDests [1, 2]) exProgE)).1.stage =
     (execB exEnvX none {} (.cons (.addDests [1, 2]) exProgE)).2 = .ok := by decide +kernel
 
 -- … have the same denotation …
-example : (F.tops (denB exEnvX none false exProgE ⟨0, 0, 0⟩ []).f).flatMap (fun e => T.top exEnvX exσ e.1 e.2) =
-      (F.tops (denB exEnvX none false exProgEW ⟨0, 0, 0⟩ []).f).flatMap (fun e => T.top exEnvX exσ e.1 e.2) ∧
-    (specOf (denB exEnvX none false exProgE ⟨0, 0, 0⟩ []).f).map (fun e => PM.tmsgs e.1 e.2) =
-      (specOf (denB exEnvX none false exProgEW ⟨0, 0, 0⟩ []).f).map (fun e => PM.tmsgs e.1 e.2) := by
+example : (F.tops (denB exEnvX none false exProgE ⟨0, 0, 0, 0⟩ []).f).flatMap (fun e => T.top exEnvX exσ e.1 e.2) =
+      (F.tops (denB exEnvX none false exProgEW ⟨0, 0, 0, 0⟩ []).f).flatMap (fun e => T.top exEnvX exσ e.1 e.2) ∧
+    (specOf (denB exEnvX none false exProgE ⟨0, 0, 0, 0⟩ []).f).map (fun e => PM.tmsgs e.1 e.2) =
+      (specOf (denB exEnvX none false exProgEW ⟨0, 0, 0, 0⟩ []).f).map (fun e => PM.tmsgs e.1 e.2) := by
   decide +kernel
 
 -- … which is what was staged (by the theorem), and parses back to the two performed trees
 example : (execB exEnvX none {} (.cons (.addDests [1, 2]) exProgE)).1.stage =
-    (F.tops (denB exEnvX none false exProgE ⟨0, 0, 0⟩ []).f).flatMap (fun e => T.top exEnvX exσ e.1 e.2) :=
+    (F.tops (denB exEnvX none false exProgE ⟨0, 0, 0, 0⟩ []).f).flatMap (fun e => T.top exEnvX exσ e.1 e.2) :=
   (emitted_is_forest exOKX (by decide) exProgE exHypsE.1 exHypsE.2.1).1
 
 example : ((execB exEnvX none {} (.cons (.addDests [1, 2]) exProgE)).1.stage.filterMap toPMsg).map
@@ -656,7 +667,7 @@ example : ((execB exEnvX none {} (.cons (.addDests [1, 2]) exProgE)).1.stage.fil
      ("u1", [4], some "t", some "succeeded")] := by decide +kernel
 
 example : ∃ out, PM.parseStream ((execB exEnvX none {} (.cons (.addDests [1, 2]) exProgE)).1.stage.filterMap toPMsg).reverse = .ok out ∧
-    Reconstructs (specOf (denB exEnvX none false exProgE ⟨0, 0, 0⟩ []).f) out := by
+    Reconstructs (specOf (denB exEnvX none false exProgE ⟨0, 0, 0, 0⟩ []).f) out := by
   obtain ⟨l, h1, _, _, _, hp⟩ := roundtrip (ds := [1, 2]) exOKX exProgE exHypsE.1 exHypsE.2.1 exHypsE.2.2
   have : (execB exEnvX none {} (.cons (.addDests [1, 2]) exProgE)).1.stage.filterMap toPMsg = l := by
     have := congrArg (List.filterMap id) h1
@@ -681,8 +692,8 @@ def exProgH : Block :=
   (.cons (.withHandle 1 (.cons (.log { mtype := "t1" }) .nil))
   (.cons (.log { mtype := "outside" }) .nil)))
 
-theorem exHypsH : exProgH.structured false false = true ∧ (denB exEnvX none false exProgH ⟨0, 0, 0⟩ []).wf = true ∧
-    F.clean (denB exEnvX none false exProgH ⟨0, 0, 0⟩ []).f = true := by decide +kernel
+theorem exHypsH : exProgH.structured false false = true ∧ (denB exEnvX none false exProgH ⟨0, 0, 0, 0⟩ []).wf = true ∧
+    F.clean (denB exEnvX none false exProgH ⟨0, 0, 0, 0⟩ []).f = true := by decide +kernel
 
 /-- the same with `with` blocks -/
 def exProgHW : Block :=
@@ -708,11 +719,11 @@ example : (execB exEnvX none {} (.cons (.addDests [1, 2]) exProgH)).1.stage =
   decide +kernel
 
 example : (execB exEnvX none {} (.cons (.addDests [1, 2]) exProgH)).1.stage =
-    (F.tops (denB exEnvX none false exProgH ⟨0, 0, 0⟩ []).f).flatMap (fun e => T.top exEnvX exσ e.1 e.2) :=
+    (F.tops (denB exEnvX none false exProgH ⟨0, 0, 0, 0⟩ []).f).flatMap (fun e => T.top exEnvX exσ e.1 e.2) :=
   (emitted_is_forest exOKX (by decide) exProgH exHypsH.1 exHypsH.2.1).1
 
 example : ∃ out, PM.parseStream ((execB exEnvX none {} (.cons (.addDests [1, 2]) exProgH)).1.stage.filterMap toPMsg).reverse = .ok out ∧
-    Reconstructs (specOf (denB exEnvX none false exProgH ⟨0, 0, 0⟩ []).f) out := by
+    Reconstructs (specOf (denB exEnvX none false exProgH ⟨0, 0, 0, 0⟩ []).f) out := by
   obtain ⟨l, h1, _, _, _, hp⟩ := roundtrip (ds := [1, 2]) exOKX exProgH exHypsH.1 exHypsH.2.1 exHypsH.2.2
   have : (execB exEnvX none {} (.cons (.addDests [1, 2]) exProgH)).1.stage.filterMap toPMsg = l := by
     have := congrArg (List.filterMap id) h1
@@ -722,7 +733,7 @@ example : ∃ out, PM.parseStream ((execB exEnvX none {} (.cons (.addDests [1, 2
 
 -- a segment body that raises is outside the fragment: `wf` says so
 example : (denB exEnvX none false
-    (.cons (.startAs 0 false { atype := "a" }) (.cons (.inContext 0 (.cons (.raise 1) .nil)) (.cons (.finish 0 none) .nil))) ⟨0, 0, 0⟩ []).wf
+    (.cons (.startAs 0 false { atype := "a" }) (.cons (.inContext 0 (.cons (.raise 1) .nil)) (.cons (.finish 0 none) .nil))) ⟨0, 0, 0, 0⟩ []).wf
       = false := by decide +kernel
 
 /-- a concrete `JsonView` for dicts of natural numbers (keys as code points, values as JSON integers) -/
@@ -736,7 +747,7 @@ def natView : JsonView where
 -- on {"a": 1, "b": 20} it is faithful, and C10's codec writes the line {"a":1,"b":20}
 example : natView.Faithful false [("a", .nat 1), ("b", .nat 20)] ∧
     (natView.codec false).enc [("a", .nat 1), ("b", .nat 20)] = [123, 34, 97, 34, 58, 49, 44, 34, 98, 34, 58, 50, 48, 125] := by
-  refine ⟨⟨by rfl, ?_, ?_, by decide⟩, by rfl⟩
+  refine ⟨⟨by rfl, ?_, ?_, by decide, by decide⟩, by rfl⟩
   · simp [natView, EJ.JsonNative, EJ.JsonNativeM, EJ.inRange, EJ.Scalar]
   · simp [natView, EJ.NodupKeysDeep, EJ.NodupKeysDeepM]
 
